@@ -4,6 +4,8 @@ package main
 
 import (
 	"fmt"
+	"strings"
+	"verif/internal/refsem"
 
 	"verif/internal/vlang"
 )
@@ -187,6 +189,51 @@ func chainSteps() []step {
 
 func (s *step) sorted(cb *vlang.Node, rev bool) {
 	s.cmp, s.cb, s.rev = cmpSorted, cb, rev
+}
+
+// longLists: every list step once on lists of 6000 items. Methods that call a closure in a Go loop
+// on one value stack must not accumulate anything per call (seeded change S01E: a stack frame that is
+// not released leaks slots until the stack guard fires after some 5000 calls).
+func (h *harness) longLists(p *pools) {
+	ctx := h.ctx
+	ctx.Space("long-lists")
+	const n = 6000
+	dup := make([]refsem.Val, n)
+	inc := make([]refsem.Val, n)
+	for i := range dup {
+		dup[i] = refsem.IntV(int64((i * 7) % 11))
+		inc[i] = refsem.IntV(int64(i))
+	}
+	e := V("e")
+	bigs := []*pv{
+		h.via("long-dup", refsem.Eager(dup), Me(St("numbers", vlang.I(n)), "map", lam("e", Op("%", Op("*", e, vlang.I(7)), vlang.I(11))))),
+		h.via("long-inc", refsem.Eager(inc), St("numbers", vlang.I(n))),
+	}
+	var idx int64
+	steps := chainSteps()
+	for i := range steps {
+		st := &steps[i]
+		if st.in != sList {
+			continue
+		}
+		for bi, big := range bigs {
+			// quadratic steps: only on the list with 11 distinct values, the self cross product not at all
+			heavy := strings.Contains(st.label, "groupBy") || strings.Contains(st.label, "unique") || strings.Contains(st.label, "movingWindow") || strings.Contains(st.label, "compact")
+			if strings.Contains(st.label, "_.cross(_") || strings.Contains(st.label, "+r") || (heavy && bi == 1) {
+				continue
+			}
+			idx++
+			if !ctx.Mine(idx) || ctx.Expired() {
+				continue
+			}
+			binds := map[string]*pv{"r": big}
+			for k, v := range p.chainBinds {
+				binds[k] = v
+			}
+			h.check(&caseT{builtin: st.builtin, inner: V("r"), last: st.build, cmp: st.cmp, cb: st.cb, rev: st.rev, binds: binds, literal: false}, false)
+		}
+	}
+	ctx.SpaceDone(fmt.Sprintf("every list step once on two lists of %d items (11 distinct values; strictly increasing), passed as arguments", n))
 }
 
 // chainSpaces enumerates the compositions: depth 2 with every step in both positions; depth >= 3 with
